@@ -283,8 +283,12 @@ pub fn run(req: &RunRequest) -> Value {
             plan.spare_join_at = Some(tape::choose("c15:spare_at", plan.requests as u64) as usize);
         }
         let mut cluster = Cluster::new("c15");
+        let zero_token_dc = tape::chance("c15:zero_token_dc", 1, 3);
         for i in 0..plan.nodes {
-            let n = cluster.add_node(&format!("dc{}", 1 + i % plan.dcs), "r1", plan.shards, vec![(i as i64) * 1000 - 2500]);
+            // (Two datacenters, 1 in 3: the nodes of the preferred datacenter own no vnode
+            // tokens - tablet replicas need none -, so that datacenter is absent from the ring.)
+            let tokens = if zero_token_dc && plan.dcs == 2 && plan.prefer_dc == 1 && i % 2 == 1 { vec![] } else { vec![(i as i64) * 1000 - 2500] };
+            let n = cluster.add_node(&format!("dc{}", 1 + i % plan.dcs), "r1", plan.shards, tokens);
             cluster.nodes[n].msb_ignore = 12;
         }
         if plan.spare_join_at.is_some() {
